@@ -78,3 +78,18 @@ package index
 //@   alloc[0] bounded_by srcend(r) - pos(r)
 //@   ensures bucket [C03,C09,C11]: err == nil ==> 8 <= s.width && s.width <= 33554432 && s.len * s.width <= len(s.index)
 //@   ensures eof_is_unexpected [C02,C09]: err != io.EOF || pos(r) > old(pos(r))
+
+// The map of buckets only ever holds well-formed buckets: asserted where a bucket is stored (Unmarshal),
+// assumed where one is looked up.
+
+//@ func (*singleWidthIndex).GetAll
+//@   requires bucket [C03,C09]: 8 <= s.width && s.width <= 33554432 && s.len * s.width <= len(s.index) && s.len <= 281474976710656
+
+//@ func (*multiWidthIndex).GetAll
+//@   call[maplookup#0] assume stored_buckets_wellformed: 8 <= value.width && value.width <= 33554432 && value.len * value.width <= len(value.index) && value.len <= 281474976710656
+
+//@ func (*multiWidthIndex).forEachDigest
+//@   call[maplookup#0] assume stored_buckets_wellformed: 8 <= value.width && value.width <= 33554432 && value.len * value.width <= len(value.index)
+
+//@ func (*multiWidthIndex).Unmarshal
+//@   call[mapupdate#0] assert stores_wellformed_bucket [C03,C09,C11]: 8 <= value.width && value.width <= 33554432 && value.len * value.width <= len(value.index) && key == value.width
